@@ -1,3 +1,54 @@
-From Verif Require Import Base Link.
-Theorem placeholder : True. Proof. exact I. Qed.
-Print Assumptions placeholder.
+(* C15 — a finished link leaves nothing behind.
+   Proved here: closing the pending-call table empties it and cancels every entry; in the repaired
+   tree a woken waiter can always hand over its result and proceed to free its entry, whatever the
+   caller did (the D2 leak is impossible); the tree as found leaves the waiter blocked forever.
+   The global statement (every infrastructure thread finished at quiescence after teardown) is
+   decided by the teardown monitor + goroutine-dump check of the run, not proved (level note). *)
+From Verif Require Import Base Link LinkProofs.
+
+Theorem close_empties_table :
+  forall s, tbl (do_close s) = [] /\ bclosed (do_close s) = true /\
+            Forall (fun en => le_cancelled en = true) (ents (do_close s)).
+Proof.
+  intros s. repeat split. unfold do_close; simpl. apply Forall_forall. intros x Hin.
+  apply in_map_iff in Hin as (y & <- & _). reflexivity.
+Qed.
+Print Assumptions close_empties_table.
+
+Theorem waiter_can_always_deposit :
+  forall calls s i r,
+    exists s', step_waiter fixed calls s i (WWoke r) 0 = Some s' /\
+               tget (threads s') (TWaiter i) = Some WDeposited.
+Proof.
+  intros calls s i r. unfold step_waiter, only0.
+  destruct (tget (threads s) (TCall i)) as [[]|]; simpl;
+    (eexists; split; [reflexivity|]); unfold setT; simpl; apply tget_tset_same.
+Qed.
+Print Assumptions waiter_can_always_deposit.
+
+Theorem waiter_frees_its_entry :
+  forall calls s i,
+    exists s', step_waiter fixed calls s i WDeposited 0 = Some s' /\
+               tget (threads s') (TWaiter i) = Some Finished /\
+               lookupN (N.of_nat i) (tbl s') = None.
+Proof.
+  intros calls s i. unfold step_waiter, only0. eexists; split; [reflexivity|].
+  unfold wake; simpl. split.
+  - rewrite tget_map_wake_gen. unfold setT; simpl. rewrite tget_tset_same. reflexivity.
+  - unfold do_free. destruct (lookupN (N.of_nat i) (tbl s)) eqn:E; simpl; [apply lookupN_removeN_same|exact E].
+Qed.
+Print Assumptions waiter_frees_its_entry.
+
+(* D2: in the tree as found the waiter of a call that left through the link-context branch blocks
+   forever on the unbuffered result channel *)
+Theorem D2_refuted :
+  exists calls cs s r,
+    lrun legacy calls linit cs = Some s /\ tget (threads s) (TWaiter 0) = Some (WDepositBlocked r) /\
+    (forall b, step_waiter legacy calls s 0 (WDepositBlocked r) b = None).
+Proof.
+  exists [mkCall 1 2 false 10],
+         [(Run TSetup, 0); (Env (EStart 0), 0); (Run (TCall 0), 0); (Run (TWaiter 0), 0); (Env (ECancel 0%N), 0);
+          (Run (TCall 0), 0); (Env (ECancel 1%N), 0); (Run (TWaiter 0), 0)].
+  eexists. eexists. split; [vm_compute; reflexivity|]. split; [reflexivity|]. intros b. reflexivity.
+Qed.
+Print Assumptions D2_refuted.
